@@ -21,6 +21,7 @@ type decision struct {
 	alts []int
 	cur  int
 	val  int64 // for 'v': the candidate value tested
+	impl bool  // the single alternative is implied by the path condition
 }
 
 type Draw struct {
@@ -118,6 +119,7 @@ type Worker struct {
 	dom       map[*Term]byteSet
 	entangled map[*Term]bool
 	facts     map[*Term]bool
+	usedUF    bool
 	condCache map[*Term]*condInfo
 	domHits   int64
 }
@@ -166,10 +168,14 @@ func (w *Worker) branch(c *Term) bool {
 		d := &w.dec[w.pos]
 		w.pos++
 		v := d.alts[d.cur]
-		if v == 1 {
-			w.addPC(c)
+		cc := c
+		if v != 1 {
+			cc = tt.Not(c)
+		}
+		if d.impl {
+			w.addImplied(cc)
 		} else {
-			w.addPC(tt.Not(c))
+			w.addPC(cc)
 		}
 		return v == 1
 	}
@@ -209,17 +215,44 @@ func (w *Worker) branch(c *Term) bool {
 			alts = []int{1, 0}
 		}
 	}
-	w.dec = append(w.dec, decision{kind: 'b', alts: alts})
+	impl := len(alts) == 1
+	w.dec = append(w.dec, decision{kind: 'b', alts: alts, impl: impl})
 	w.pos++
 	if len(w.dec) > w.st.MaxDec {
 		w.st.MaxDec = len(w.dec)
 	}
-	if alts[0] == 1 {
-		w.addPC(c)
-		return true
+	cc := c
+	if alts[0] != 1 {
+		cc = tt.Not(c)
 	}
-	w.addPC(tt.Not(c))
-	return false
+	if impl {
+		w.addImplied(cc)
+	} else {
+		w.addPC(cc)
+	}
+	return alts[0] == 1
+}
+
+// addImplied records a constraint that the path condition already implies:
+// it feeds the fact and byte-domain caches but is not sent to the solver.
+func (w *Worker) addImplied(c *Term) {
+	if c.IsConst() {
+		return
+	}
+	if c.op == OAnd {
+		w.addImplied(c.a)
+		w.addImplied(c.b)
+		return
+	}
+	if c.op == ONot && c.a.op == OOr {
+		w.addImplied(w.tt.Not(c.a.a))
+		w.addImplied(w.tt.Not(c.a.b))
+		return
+	}
+	w.addFact(c, true, 0)
+	if c.svState == 2 {
+		w.domAdd(c)
+	}
 }
 
 func (w *Worker) branchT(c *Term) bool { return w.branch(c) }
@@ -371,7 +404,11 @@ func (w *Worker) assert(id string, c *Term, msg string) {
 		w.st.UnknownAsrt++
 		w.sh.addInconclusive(Inconclusive{w.harness, "unknown", "assertion " + id + ": solver returned unknown"})
 	case Sat:
-		w.recordViolation(id, msg)
+		if c.IsConst() {
+			w.recordViolation(id, msg, nil)
+		} else {
+			w.recordViolation(id, msg, tt.Not(c))
+		}
 	}
 	// continue under the assumption that the assertion holds
 	if c.IsConst() {
@@ -437,9 +474,30 @@ func (w *Worker) modelInputs() []DrawVal {
 	return out
 }
 
-func (w *Worker) recordViolation(id, msg string) {
-	// the last check (pc ∧ ¬c) was Sat: read the model
+func (w *Worker) recordViolation(id, msg string, notC *Term) {
+	// the last check (pc ∧ ¬c) was Sat: read the model. With hash
+	// abstractions, first look for a model without accidental equalities
+	// between free hashes and hash applications that depend on them (such
+	// cycles cannot be realised with the real hash function).
+	if w.usedUF {
+		extra := w.acyclicityHints()
+		if len(extra) > 0 {
+			if notC != nil {
+				extra = append(extra, notC)
+			}
+			if w.check(extra...) != Sat {
+				if notC != nil {
+					w.check(notC)
+				} else {
+					w.check()
+				}
+			}
+		}
+	}
 	inputs := w.modelInputs()
+	if w.usedUF {
+		inputs = w.liftHashes(inputs)
+	}
 	known := ""
 	for k := range w.knownOn {
 		known = k
@@ -589,7 +647,7 @@ func (w *Worker) explore(fn *ssa.Function, prefix []decision) {
 			// an escaping panic of the code under test is a violation of
 			// the implicit "no panic" assertion
 			if w.check() != Unsat {
-				w.recordViolation("no-panic", msg)
+				w.recordViolation("no-panic", msg, nil)
 			}
 		case "unsupported":
 			w.st.Unsupported++
@@ -605,7 +663,7 @@ func (w *Worker) explore(fn *ssa.Function, prefix []decision) {
 			w.sh.addInconclusive(Inconclusive{w.harness, "engine", msg})
 		}
 		// periodic solver restart to bound memory
-		if w.solver.sinceBoot > 20000 {
+		if w.solver.sinceBoot > restartEvery {
 			w.resetSolver()
 		}
 		// donate work if others are idle
@@ -653,7 +711,7 @@ func (w *Worker) donate() {
 			for _, a := range d.alts[d.cur+1:] {
 				p := make([]decision, i+1)
 				for j := 0; j < i; j++ {
-					p[j] = decision{kind: w.dec[j].kind, alts: []int{w.dec[j].alts[w.dec[j].cur]}, val: w.dec[j].val}
+					p[j] = decision{kind: w.dec[j].kind, alts: []int{w.dec[j].alts[w.dec[j].cur]}, val: w.dec[j].val, impl: w.dec[j].impl}
 				}
 				p[i] = decision{kind: d.kind, alts: []int{a}, val: d.val}
 				jobs = append(jobs, p)
@@ -840,3 +898,14 @@ func (w *Worker) factEval(c *Term, depth int) (bool, bool) {
 	}
 	return false, false
 }
+
+var restartEvery = func() int {
+	if v := os.Getenv("GOSYM_RESTART"); v != "" {
+		n := 0
+		fmt.Sscanf(v, "%d", &n)
+		if n > 0 {
+			return n
+		}
+	}
+	return 20000
+}()
